@@ -55,7 +55,7 @@ func tier(t string) tiers {
 	if t == "thorough" {
 		return tiers{SmallTexts: 4000, LargeTexts: 1500, PosPerLarge: 120, PlansPerPos: 3, Queries: 6000}
 	}
-	return tiers{SmallTexts: 240, LargeTexts: 96, PosPerLarge: 40, PlansPerPos: 2, Queries: 400}
+	return tiers{SmallTexts: 1200, LargeTexts: 480, PosPerLarge: 40, PlansPerPos: 2, Queries: 2000}
 }
 
 func (Prop) Units(t string, seed uint64) int {
